@@ -23,6 +23,7 @@ import (
 	"os"
 	"path/filepath"
 	"regexp"
+	"sort"
 	"strconv"
 	"strings"
 	"time"
@@ -47,6 +48,9 @@ type facts struct {
 	failoverDefault  bool
 	failoverValue    string
 	partitionAware   bool
+	killWrites       string   // "filter-then-append" | "other"
+	killWritesDetail string
+	rosterWriters    []string // every write to the roster in package core/task: "<function>:<method>", sorted
 	problems         []string
 }
 
@@ -260,6 +264,197 @@ func killFacts(f *ast.File, ft *facts) {
 	}
 }
 
+// ---- doKillTasks: how a teardown writes the roster --------------------------------------
+
+// isRosterWrite: x is a call m.roster.updateTasks(…) / m.roster.append(…) (any receiver ending in .roster).
+func isRosterWrite(x ast.Node) (method string, call *ast.CallExpr, ok bool) {
+	c, isCall := x.(*ast.CallExpr)
+	if !isCall {
+		return "", nil, false
+	}
+	sel, isSel := c.Fun.(*ast.SelectorExpr)
+	if !isSel || !strings.HasSuffix(es(sel.X), ".roster") {
+		return "", nil, false
+	}
+	if sel.Sel.Name == "updateTasks" || sel.Sel.Name == "append" {
+		return sel.Sel.Name, c, true
+	}
+	return "", nil, false
+}
+
+func rosterWritesIn(n ast.Node) (out []string) {
+	ast.Inspect(n, func(x ast.Node) bool {
+		if m, _, ok := isRosterWrite(x); ok {
+			out = append(out, m)
+		}
+		if as, ok := x.(*ast.AssignStmt); ok {
+			for _, l := range as.Lhs {
+				if strings.HasSuffix(es(l), ".roster") || strings.HasSuffix(es(l), ".roster.tasks") {
+					out = append(out, "assign")
+				}
+			}
+		}
+		return true
+	})
+	return
+}
+
+// killWriteFacts: the shape of (*Manager).doKillTasks the model's releaseBegin/releaseEnd describe —
+//
+//	BEFORE the loop that makes the KILL calls the roster is written only by statements
+//	    m.roster.updateTasks(m.roster.filtered(func…))          (a FRESH read of the roster, filtered, written at once)
+//	IN the loop (`for _, task := range …` with `e := m.doKillTask(task)`) only by
+//	    m.roster.append(task)   in the branch `if e != nil`       (the one task whose KILL failed)
+//	AFTER the loop not at all.
+//
+// Anything else — in particular a roster value read before the calls and written after them — is "other".
+func killWriteFacts(f *ast.File, ft *facts) {
+	ft.killWrites = "other"
+	fd := findFunc(f, "Manager", "doKillTasks")
+	if fd == nil {
+		ft.killWritesDetail = "(*Manager).doKillTasks not found"
+		return
+	}
+	loop := -1
+	for i, s := range fd.Body.List {
+		if containsCall(s, "m.doKillTask") > 0 {
+			if _, ok := s.(*ast.RangeStmt); !ok || loop >= 0 {
+				ft.killWritesDetail = "the KILL calls are not made in exactly one top-level range loop"
+				return
+			}
+			loop = i
+		}
+	}
+	if loop < 0 {
+		ft.killWritesDetail = "no loop calling m.doKillTask"
+		return
+	}
+	filters := 0
+	for _, s := range fd.Body.List[:loop] {
+		ws := rosterWritesIn(s)
+		if len(ws) == 0 {
+			continue
+		}
+		ok := false
+		if e, isE := s.(*ast.ExprStmt); isE && len(ws) == 1 {
+			if m, c, isW := isRosterWrite(e.X); isW && m == "updateTasks" && len(c.Args) == 1 {
+				if in, isC := c.Args[0].(*ast.CallExpr); isC && es(in.Fun) == "m.roster.filtered" && len(in.Args) == 1 {
+					if _, isF := in.Args[0].(*ast.FuncLit); isF {
+						ok = true
+					}
+				}
+			}
+		}
+		if !ok {
+			ft.killWritesDetail = "before the KILL calls the roster is written by something other than m.roster.updateTasks(m.roster.filtered(func…)): " + es0(s)
+			return
+		}
+		filters++
+	}
+	if filters == 0 {
+		ft.killWritesDetail = "the tasks are not taken out of the roster before the KILL calls"
+		return
+	}
+	for _, s := range fd.Body.List[loop+1:] {
+		if ws := rosterWritesIn(s); len(ws) > 0 {
+			ft.killWritesDetail = "the roster is written after the KILL calls: " + es0(s)
+			return
+		}
+	}
+	rs := fd.Body.List[loop].(*ast.RangeStmt)
+	taskVar := es(rs.Value)
+	errVar := ""
+	appends := 0
+	for _, s := range rs.Body.List {
+		switch st := s.(type) {
+		case *ast.AssignStmt:
+			if len(st.Lhs) == 1 && len(st.Rhs) == 1 && es(st.Rhs[0]) == "m.doKillTask("+taskVar+")" {
+				errVar = es(st.Lhs[0])
+				continue
+			}
+		case *ast.IfStmt:
+			if errVar != "" && st.Init == nil && es(st.Cond) == errVar+" != nil" {
+				for _, b := range st.Body.List {
+					ws := rosterWritesIn(b)
+					if len(ws) == 0 {
+						continue
+					}
+					if e, isE := b.(*ast.ExprStmt); isE && len(ws) == 1 && es(e.X) == "m.roster.append("+taskVar+")" {
+						appends++
+						continue
+					}
+					ft.killWritesDetail = "a failed KILL is answered by a roster write other than m.roster.append(<that task>): " + es0(b)
+					return
+				}
+				if st.Else != nil && len(rosterWritesIn(st.Else)) > 0 {
+					ft.killWritesDetail = "the roster is written after a successful KILL call"
+					return
+				}
+				continue
+			}
+		}
+		if len(rosterWritesIn(s)) > 0 {
+			ft.killWritesDetail = "roster write in the KILL loop outside `if <err of doKillTask> != nil`: " + es0(s)
+			return
+		}
+	}
+	if appends != 1 {
+		ft.killWritesDetail = fmt.Sprintf("%d m.roster.append(<task>) in the failure branch of the KILL loop", appends)
+		return
+	}
+	ft.killWrites = "filter-then-append"
+}
+
+func es0(s ast.Stmt) string {
+	switch st := s.(type) {
+	case *ast.ExprStmt:
+		return clip(es(st.X))
+	case *ast.AssignStmt:
+		if len(st.Lhs) > 0 && len(st.Rhs) > 0 {
+			return clip(es(st.Lhs[0]) + " " + st.Tok.String() + " " + es(st.Rhs[0]))
+		}
+	}
+	return fmt.Sprintf("%T", s)
+}
+
+func clip(s string) string {
+	s = strings.Join(strings.Fields(s), " ")
+	if len(s) > 90 {
+		return s[:90] + "…"
+	}
+	return s
+}
+
+// rosterWriterFacts: every write to a roster in package core/task (the field is unexported: nobody else can).
+func rosterWriterFacts(repo string, ft *facts) {
+	files, err := filepath.Glob(filepath.Join(repo, "core/task/*.go"))
+	if err != nil || len(files) == 0 {
+		ft.problems = append(ft.problems, "core/task/*.go not found")
+		return
+	}
+	for _, path := range files {
+		if strings.HasSuffix(path, "_test.go") || filepath.Base(path) == "roster.go" {
+			continue // roster.go defines updateTasks/append themselves
+		}
+		f, err := parseGo(path)
+		if err != nil {
+			ft.problems = append(ft.problems, filepath.Base(path)+": "+err.Error())
+			ft.rosterWriters = append(ft.rosterWriters, "unparsable:"+filepath.Base(path))
+			continue
+		}
+		for _, d := range f.Decls {
+			fd, ok := d.(*ast.FuncDecl)
+			if !ok || fd.Body == nil {
+				continue
+			}
+			for _, w := range rosterWritesIn(fd.Body) {
+				ft.rosterWriters = append(ft.rosterWriters, fd.Name.Name+":"+w)
+			}
+		}
+	}
+	sort.Strings(ft.rosterWriters)
+}
+
 // ---- NewManager: the framework-id store ------------------------------------------------
 
 func fidFacts(f *ast.File, ft *facts) {
@@ -464,13 +659,18 @@ func frameworkFacts(repo string, util *ast.File, ft *facts) {
 }
 
 func collectFacts(repo string) *facts {
-	ft := &facts{killGuard: "other"}
+	ft := &facts{killGuard: "other", killWrites: "other"}
 	man, err := parseGo(filepath.Join(repo, "core/task/manager.go"))
 	if err != nil {
 		ft.problems = append(ft.problems, "manager.go: "+err.Error())
 	} else {
 		killFacts(man, ft)
 		fidFacts(man, ft)
+		killWriteFacts(man, ft)
+	}
+	rosterWriterFacts(repo, ft)
+	if ft.killWritesDetail != "" {
+		ft.problems = append(ft.problems, "doKillTasks: "+ft.killWritesDetail)
 	}
 	sched, err1 := parseGo(filepath.Join(repo, "core/task/scheduler.go"))
 	state, err2 := parseGo(filepath.Join(repo, "core/task/schedulerstate.go"))
@@ -534,6 +734,18 @@ func genFacts(repo string) (string, error) {
 	wb("go/ast, BuildFrameworkInfo: failoverTimeout := viper.GetDuration(\"mesosFailoverTimeout\").Seconds(); if failoverTimeout > 0 { frameworkInfo.FailoverTimeout = &failoverTimeout }", "failoverTimeoutSet", ft.failoverSet)
 	wb("go/ast, core/config.go: the default of mesosFailoverTimeout parses to a positive duration ("+ft.failoverValue+")", "failoverDefaultPositive", ft.failoverDefault)
 	wb("mesosutil.go mentions PARTITION_AWARE (the framework would then be sent TASK_UNREACHABLE, which the KILL branch does not list)", "partitionAware", ft.partitionAware)
+	ws("go/ast, (*Manager).doKillTasks: how a teardown writes the roster. \"filter-then-append\" = BEFORE the one top-level range loop that makes the KILL calls "+
+		"(e := m.doKillTask(task)) the roster is written only by statements m.roster.updateTasks(m.roster.filtered(func…)) — a fresh read, filtered, written at once — "+
+		"IN the loop only by m.roster.append(task) in the branch `if e != nil` (the one task whose KILL failed), AFTER the loop not at all; "+
+		"\"other\" = anything else, e.g. a roster value read before the calls and written after them", "killTasksRosterWrites", ft.killWrites)
+	fmt.Fprintf(&b, "/-- go/ast, package core/task (all non-test files but roster.go): every call <x>.roster.updateTasks(…) / <x>.roster.append(…) and every assignment to <x>.roster[.tasks], as <enclosing function>:<method>, sorted -/\ndef rosterWriteSites : List String := [")
+	for i, s := range ft.rosterWriters {
+		if i > 0 {
+			b.WriteString(", ")
+		}
+		fmt.Fprintf(&b, "%q", s)
+	}
+	b.WriteString("]\n\n")
 	b.WriteString("end Gen.C18\n")
 	return b.String(), nil
 }
